@@ -308,34 +308,7 @@ def rewrite_radicals(t: tm.T, equations=()):
                 break
     except tm.PolyTooBig:
         return None
-    radvars = {}
-    for name, (sym, radt) in ST.rad_by_name.items():
-        radvars[sym.id] = radt
-    try:
-        for _ in range(64):
-            hit = False
-            for vid, radt in radvars.items():
-                if p.degree_in(vid) >= 2:
-                    rp = tm.to_poly(radt)
-                    if rp is None:
-                        return None
-                    new = tm.Poly()
-                    for m, c in p.d.items():
-                        e = dict(m).get(vid, 0)
-                        if e >= 2:
-                            rest = tuple((v, k) for v, k in m if v != vid)
-                            if e % 2:
-                                rest = tm._mono_mul(rest, ((vid, 1),))
-                            new = new + (tm.Poly({rest: c}) * (rp ** (e // 2)))
-                        else:
-                            new = new + tm.Poly({m: c})
-                    p = new
-                    hit = True
-            if not hit:
-                break
-    except tm.PolyTooBig:
-        return None
-    return p
+    return ring.reduce_squares(p)
 
 
 # --------------------------------------------------------------------------
@@ -383,6 +356,18 @@ def prove_zero(diff: tm.T, assumptions=(), timeout=20, lemma_instances=(), seed=
         # constant after construction-time folding: still ask the solver (trivial)
         pass
     goal = tm.ne(diff, tm.const(0))
+    rewritten_first = False
+    if ST.squares or lemma_instances:
+        # rewriting by recorded squares / oriented lemma equations first: when radicals or
+        # uninterpreted applications are involved the plain identity rarely holds syntactically
+        p = rewrite_radicals(diff, lemma_instances)
+        rewritten_first = True
+        if p is not None:
+            rt = tm.poly_to_term(p)
+            v3, _ = run_z3(tm.to_smt2([tm.ne(rt, tm.const(0))],
+                                      comments=[label, "stage 3: radicals/lemma equations rewritten"]), timeout)
+            if v3 == "unsat":
+                return Result("proved", 3, query_s=time.time() - t0, size=sz)
     # stage 1: assumption-free identity
     v, out = run_z3(tm.to_smt2([goal], comments=[label, "stage 1: identity"]), min(timeout, STAGE1_TIMEOUT))
     if v == "unsat":
@@ -397,7 +382,7 @@ def prove_zero(diff: tm.T, assumptions=(), timeout=20, lemma_instances=(), seed=
         # stage 3: rewrite even radical powers / oriented lemma equations in the polynomial
         # normal form, then ask the solver about the rewritten term
         v2 = "unknown"
-        if ST.rad_by_name or lemma_instances:
+        if (ST.squares or lemma_instances) and not rewritten_first:
             p = rewrite_radicals(diff, lemma_instances)
             if p is not None:
                 rt = tm.poly_to_term(p)
@@ -470,6 +455,16 @@ def discharge_lemmas(timeout=20):
     Returns (n_ok, n_bad)."""
     ok = bad = 0
     seen = set()
+    for l in ST.sq_lemmas:
+        if l.id in seen or l.op == "true":
+            continue
+        seen.add(l.id)
+        v, _ = run_z3(tm.to_smt2(list(ST.facts) + [tm.not_(l)],
+                                 comments=["radicand identification using recorded squares"]), timeout)
+        if v == "unsat":
+            ok += 1
+        else:
+            bad += 1
     for l in ST.lemmas:
         if l.id in seen or l.op == "true":
             continue
@@ -498,13 +493,29 @@ def prove_all_zero(diffs, assumptions=(), timeout=20, lemma_instances=(), seed=0
         if v == "unsat":
             return Result("proved", 0, query_s=time.time() - t0, size=sz)
         return Result("inconclusive", None, detail="trivial query not unsat")
+    if ST.squares or lemma_instances:
+        rts = []
+        for d in nz:
+            p = rewrite_radicals(d, lemma_instances)
+            if p is None:
+                rts = None
+                break
+            rts.append(tm.poly_to_term(p))
+        if rts is not None:
+            g3 = tm.or_(*[tm.ne(x, tm.const(0)) for x in rts])
+            v3, _ = run_z3(tm.to_smt2([g3], comments=[label, "stage 3 (disjunction): radicals/lemma equations "
+                                                      "rewritten"]), timeout) if g3.op != "false" else ("unsat", "")
+            if g3.op == "false":
+                v3, _ = run_z3(tm.to_smt2([tm._mk("not", (tm._mk("eq", (tm.const(0), tm.const(0)), "Bool"),), "Bool")]), timeout)
+            if v3 == "unsat":
+                return Result("proved", 3, query_s=time.time() - t0, size=sz)
     goal = tm.or_(*[tm.ne(d, tm.const(0)) for d in nz])
     v, _ = run_z3(tm.to_smt2([goal], comments=[label, "stage 1: identity (disjunction)"]),
                   min(timeout, STAGE1_TIMEOUT))
     if v == "unsat":
         return Result("proved", 1, query_s=time.time() - t0, size=sz)
     have_side = bool(ST.facts or ST.domain or assumptions or lemma_instances or ST.nonzero)
-    if have_side and not (ST.rad_by_name or lemma_instances):
+    if have_side and not (ST.squares or lemma_instances):
         A = side_assumptions(list(assumptions) + list(lemma_instances))
         v2, _ = run_z3(tm.to_smt2(A + [goal], comments=[label, "stage 2 (disjunction)"]), timeout)
         if v2 == "unsat":
